@@ -564,7 +564,7 @@ func checkShare(vd *Verdict, v *prioView) {
 			}
 		}
 
-		if m.T-lastRel < int64(40+4*sc.H) {
+		if m.T-lastRel < int64(40+4*sc.H)*max(1, sc.Unit) {
 			vd.probe("mark-too-early-to-judge")
 			continue
 		}
@@ -611,7 +611,7 @@ func checkProgress(vd *Verdict, v *prioView) {
 				}
 			}
 
-			if avail < sc.H || m.T-lastT < int64(40+4*sc.H) {
+			if avail < sc.H || m.T-lastT < int64(40+4*sc.H)*max(1, sc.Unit) {
 				vd.probe("mark-too-early-to-judge")
 				continue
 			}
